@@ -1,0 +1,37 @@
+//go:build verif
+
+// Package verifhook provides named call sites used by external verification
+// tooling. With the "verif" build tag a handler can be installed that is
+// invoked at every site (to stop the process, to yield, or to trace).
+package verifhook
+
+import "sync/atomic"
+
+// Enabled reports whether the verification hooks are compiled in.
+const Enabled = true
+
+// Handler is called with the site name at every hook site.
+type Handler func(site string)
+
+var handler atomic.Pointer[Handler]
+
+// At marks a named site and calls the installed handler, if any.
+func At(site string) {
+	if h := handler.Load(); h != nil {
+		(*h)(site)
+	}
+}
+
+// Set installs a handler for all sites.
+func Set(h Handler) {
+	if h == nil {
+		handler.Store(nil)
+		return
+	}
+	handler.Store(&h)
+}
+
+// Reset removes the installed handler.
+func Reset() {
+	handler.Store(nil)
+}
